@@ -240,7 +240,8 @@ let () =
                  (match ft_lookup t (unhex nm) with
                   | Hit i ->
                       (match slot_at t.t_entries i with
-                       | Some (_, (k, _)) -> Buffer.add_string buf (Printf.sprintf "g %d:%d" (int_of_nat i) (int_of_n k))
+                       | Some (_, (k, (e, pc))) ->
+                           Buffer.add_string buf (Printf.sprintf "g %d:%d:%d:%d" (int_of_nat i) (int_of_n k) (int_of_n e) (int_of_n pc))
                        | None -> Buffer.add_string buf "g hit-on-free-slot")
                   | Miss | MissGiveUp -> Buffer.add_string buf "g -"
                   | LDivZero -> Buffer.add_string buf "g DIVZERO"
